@@ -2,6 +2,10 @@
 # Re-runs the quick check of the broken property against every kept seed (regression of the detection matrix).
 # Prints one line per seed; exit code = number of seeds that were not reported.
 cd /verif || exit 99
+# runs in its own scratch worktree so that /repo stays free
+export SEED_REPO=/tmp/repo_seeds
+[ -d "$SEED_REPO" ] || git -C /repo worktree add --detach "$SEED_REPO" HEAD >/dev/null 2>&1
+git -C "$SEED_REPO" checkout -q --detach "$(git -C /repo rev-parse HEAD)" && git -C "$SEED_REPO" checkout -q -- .
 missed=0
 for d in seeded/*/; do
   id=$(basename "$d")
